@@ -55,6 +55,31 @@ func Index(json any) any {
 		}
 	}
 
+	// a node that is only referred to ({"@id": ...} as the value of a property) is a node of the graph as well: flattening
+	// lists only the nodes that have properties of their own, so a path that passes through such a node would lose it
+	for _, nn := range nodes {
+		for key, values := range nn.(types.ObjectMap) {
+			if key == "@id" || key == "@type" {
+				continue
+			}
+			list, isList := values.([]any)
+			if !isList {
+				list = []any{values} // a single value is not wrapped in an array
+			}
+			for _, value := range list {
+				reference, isObject := value.(types.ObjectMap)
+				if !isObject || len(reference) != 1 {
+					continue
+				}
+				if id, isReference := reference["@id"].(string); isReference {
+					if _, described := nodeIndex[id]; !described {
+						nodeIndex[id] = types.ObjectMap{"@id": id}
+					}
+				}
+			}
+		}
+	}
+
 	var locationIndex = createLocationIndex(&nodeIndex, &classIndex)
 
 	// Build lexical index
